@@ -220,7 +220,8 @@ class World:
     @staticmethod
     def lf_files(fold, suf=".*bin"):
         """LF-band binaries in a folder, whatever the run name: <anything>.lf.bin / .lf.cbin"""
-        return sorted(p for p in Path(fold).glob("*.lf" + suf) if p.suffix in (".bin", ".cbin"))
+        want = (".bin", ".cbin") if suf == ".*bin" else (suf,)
+        return sorted(p for p in Path(fold).glob("*.lf.*") if p.suffix in want)
 
     def lf_path(self, fold, suf):
         c = self.lf_files(fold, suf)
